@@ -1,24 +1,55 @@
 #!/bin/sh
 # tools/selftest.sh [name-prefix]: for every patch in /verif/mutants (and every seeded change):
-# apply it to /repo, make sure the pinned suite still passes (otherwise the mutant is not
-# interesting), run the check of the property named by the file's prefix and expect exit 1,
-# undo. Writes /verif/selftest-report.json. Do not run while anything else uses /repo.
-cd /verif || exit 2
-git -C /repo diff --quiet || { echo "/repo has uncommitted changes"; exit 2; }
-out=/verif/selftest-report.json; tmp=$(mktemp); echo "[" > $tmp; first=1
-for patch in mutants/$1*.diff seeded/$1*/patch.diff; do
+# apply it to a scratch worktree of /repo (HEAD), make sure the pinned suite still passes there
+# (otherwise the change is not interesting), rebuild a scratch copy of the harness against that
+# worktree, run the check of the property named by the file's prefix and expect exit 1, undo.
+# Neither /repo nor /verif/harness is touched, so this can run next to other work (vp run).
+# Writes selftest-report.json into the directory it was started from (cwd must be a /verif tree).
+# SELFTEST_ONLY="<glob of seed directory names>" restricts the run to those seeded changes (e.g.
+# "C??g"); the report is then merged into the existing one (entries of the same name replaced).
+here=$(pwd)
+[ -f "$here/tools/selftest.sh" ] || { echo "start me from the root of a /verif tree"; exit 2; }
+root=${SELFTEST_ROOT:-/tmp/selftest}
+export CARGO_NET_OFFLINE=true
+git -C /repo worktree remove --force $root/repo 2>/dev/null; rm -rf $root; mkdir -p $root/out
+git -C /repo worktree add -q --detach $root/repo HEAD || exit 2
+rsync -a --exclude target "$here/harness" $root/ && ln -sfn $root/repo $root/ggrs-src
+cp "$here/known_findings.json" $root/out/
+out="$here/selftest-report.json"; tmp=$(mktemp); echo "[" > $tmp; first=1
+if [ -n "$SELFTEST_ONLY" ]; then list=$(ls -d seeded/$SELFTEST_ONLY/patch.diff 2>/dev/null); else list=$(ls mutants/$1*.diff seeded/$1*/patch.diff 2>/dev/null); fi
+for patch in $list; do
   [ -f "$patch" ] || continue
   case "$patch" in mutants/*) name=$(basename $patch .diff);; *) name=seeded-$(basename $(dirname $patch));; esac
   id=$(echo "$name" | sed -E 's/^(seeded-)?(C[0-9]+).*/\2/')
-  git -C /repo apply "/verif/$patch" 2>/dev/null || { echo "$name: patch does not apply"; continue; }
-  suite=$(cd /repo && cargo nextest run --workspace --no-fail-fast --tool-config-file pb:/w/lib/nextest.toml --profile pb --test-threads 8 --offline 2>&1 | grep -E "Summary" | sed -E 's/.*Summary[^0-9]*\[[^]]*\] *//')
-  res=$(./check $id 2>&1); rc=$?
+  git -C $root/repo apply "$here/$patch" 2>/dev/null || { echo "$name: patch does not apply"; continue; }
+  # the suite binds fixed loopback ports: retry when another job on this machine collided with it
+  for attempt in 1 2 3; do
+    suite=$(cd $root/repo && CARGO_TARGET_DIR=$root/target-suite cargo nextest run --workspace --no-fail-fast --tool-config-file pb:/w/lib/nextest.toml --profile pb --test-threads 8 --offline 2>&1 | grep -E "Summary" | sed -E 's/.*Summary[^0-9]*\[[^]]*\] *//')
+    case "$suite" in *failed*) ;; *) break;; esac
+  done
+  if (cd $root/harness && CARGO_TARGET_DIR=$root/target cargo build --release --offline >/dev/null 2>&1); then
+    res=$(cd $root/harness && VERIF_DIR=$root/out $root/target/release/ggrs-mc $id 2>&1); rc=$?
+  else
+    res=""; rc=2
+  fi
   kinds=$(echo "$res" | grep -E "^  kind=" | sed -E 's/^  kind=([^ ]+) class=([^ ]+).*/\1@\2/' | sort -u | head -4 | tr '\n' ' ')
-  git -C /repo checkout -- .
+  git -C $root/repo checkout -- .
   echo "$name: suite[$suite] check $id exit=$rc $kinds"
   [ $first = 1 ] || echo "," >> $tmp; first=0
   printf '{"mutant":"%s","property":"%s","pinned_suite":"%s","check_exit":%s,"violation_kinds":"%s"}' "$name" "$id" "$suite" "$rc" "$kinds" >> $tmp
 done
-echo "]" >> $tmp; mv $tmp $out
-git -C /verif checkout -- evidence 2>/dev/null
-find /verif/replays -type f -delete 2>/dev/null
+echo "]" >> $tmp
+if [ -n "$SELFTEST_ONLY" ] && [ -f $out ]; then
+  python3 - "$tmp" "$out" <<'PY'
+import json, sys
+new = json.load(open(sys.argv[1])); old = json.load(open(sys.argv[2]))
+names = {e["mutant"] for e in new}
+merged = [e for e in old if e["mutant"] not in names] + new
+merged.sort(key=lambda e: e["mutant"])
+open(sys.argv[2], "w").write("[\n" + ",\n".join(json.dumps(e, separators=(",", ":")) for e in merged) + "\n]\n")
+PY
+  rm -f $tmp
+else
+  mv $tmp $out
+fi
+git -C /repo worktree remove --force $root/repo; rm -rf $root
